@@ -85,12 +85,38 @@ def scenarios(ctx):
     return out
 
 
+def after_reset(sid, rnd, subs, ints):
+    """the fan-out of the first invocation after a reset: the invocation itself brings the environment up (inline
+    init), the subscribers register during it - and get the event like in any other invocation"""
+    s = Scn(sid, ext=list(subs), timeout_ms=400, opWaitMs=6000)
+    s.meta(family="fanout", subs=subs, internal=ints, kind="after-reset")
+    tags = s.boot(subs, ints)
+    s.round(tags, subs, ints)
+    it = s.invoke(size=3, seed=5)
+    s.wait(tags["rt"])
+    for w in tags:
+        if w != "rt" and "INVOKE" in (subs.get(w[4:]) if w.startswith("ext:") else ints.get(w[4:])):
+            s.wait(tags[w])
+    s.wait(it)                  # nobody answers: timeout, reset
+    tags = s.recover(subs, ints)
+    s.round(tags, subs, ints)
+    return s.done()
+
+
+def after_reset_scenarios(ctx):
+    rnd = random.Random(ctx.seed * 41 + 4)
+    combos = [({"e1": ["INVOKE"]}, {}), ({"e1": ["INVOKE"], "e2": ["SHUTDOWN"]}, {"i1": ["INVOKE"]}), ({}, {"i1": ["INVOKE"]})]
+    if not ctx.quick:
+        combos += [({"e1": ["INVOKE", "SHUTDOWN"], "e2": ["INVOKE"]}, {}), ({"e1": []}, {"i1": ["INVOKE"], "i2": []})]
+    return [after_reset("c04-ar%d" % (i + 1), rnd, s_, i_) for i, (s_, i_) in enumerate(combos)]
+
+
 def run(ctx):
     ctx.level = "model_checking"
     # E1: the property predicates as invariants of the composite (spec/MC_Rapid.tla)
     mcrapid.check(ctx, ['DoneOnlyAfterAll', 'EventsOnlyToSubscribers', 'FailResetShutdownOnlyToSubscribers'], extra_configs=('internal',) if ctx.quick else ('internal', 'internal2'))
     ctx.assumptions += sc.ASSUME
-    scs = scenarios(ctx)
+    scs = scenarios(ctx) + after_reset_scenarios(ctx)
     sc.run_families(ctx, scs, "fanout")
     sc.run_families(ctx, forced.scenarios('c04', ('dispatch-held',)), "forced-schedule")
     ctx.coverage["exhaustive"] = False
